@@ -753,12 +753,32 @@ async fn execute_async(case: &Case) -> Exec {
             labels.push(format!("upgrade_result/{}", out.msg));
         }
         let rec = env.recorded();
+        // the FakeOS/RPC calls this operation made (failure details only)
+        let call_trace: String = {
+            let st = env.os.st();
+            st.log
+                .iter()
+                .filter(|c| c.op == op_idx)
+                .map(|c| {
+                    let name = Path::new(&c.arg)
+                        .file_name()
+                        .map(|f| f.to_string_lossy().to_string())
+                        .unwrap_or_else(|| c.arg.clone());
+                    match c.injected {
+                        Some(v) => format!("#{}:{}({})!{}", c.call, c.kind.short(), name, v),
+                        None => format!("#{}:{}({})", c.call, c.kind.short(), name),
+                    }
+                })
+                .collect::<Vec<_>>()
+                .join(" ")
+        };
         let ctxt = |what: &str| -> String {
             format!(
-                "{what} | after op #{op_idx} {} -> {} {:?}",
+                "{what} | after op #{op_idx} {} -> {} {:?} | calls: {}",
                 op.short(),
                 if out.ok { "Ok" } else { "Err" },
-                out.msg
+                out.msg,
+                call_trace
             )
         };
         removed.resize(rec.nodes.len().max(removed.len()), false);
@@ -1184,7 +1204,7 @@ fn enumerate_chunk(
         complete: true,
         placements: 0,
     };
-    let mut account = |case: &Case, ex: &Exec, out: &mut EnumOut| {
+    let account = |case: &Case, ex: &Exec, out: &mut EnumOut| {
         out.stats.evaluations += 1;
         for l in &ex.labels {
             *out.stats.classes.entry(l.clone()).or_default() += 1;
